@@ -40,8 +40,8 @@ OPS = ["dlc_client", "dlc_server", "ldl_recv", "ldl_send", "resolve", "poll_recv
 def phases(tier):
     q = tier == "quick"
     return [{"name": "break", "runs": 900 if q else 120000, "params": {}},
-            # directed two-point schedules (checks/c09_handoff.py): 17 calls x 4 causes x 2 sides = 136 scenario classes
-            {"name": "handoff", "runs": 136 if q else 2720, "params": {"mode": "handoff", "cells": 260 if q else 1500}}]
+            # directed two-point schedules (checks/c09_handoff.py): 18 calls x 4 causes x 2 sides = 144 scenario classes
+            {"name": "handoff", "runs": 144 if q else 2880, "params": {"mode": "handoff", "cells": 260 if q else 1500}}]
 
 
 def run_one(sim, params):
